@@ -1,1 +1,843 @@
-fn main() { println!("{:?}", prqlc::compile("from a", &prqlc::Options::default())); }
+mod check;
+mod exec;
+mod forkrun;
+mod gen;
+mod minimize;
+mod ops;
+mod plan;
+mod rng;
+mod seams;
+mod worker;
+
+use std::collections::{BTreeMap, HashMap, HashSet};
+use std::io::{BufRead, BufReader};
+use std::process::{Command, Stdio};
+
+use serde::{Deserialize, Serialize};
+
+use check::{RefTable, Violation};
+use plan::Plan;
+use worker::{ExecReport, FaultCounts, HarvestReport, Tier, WorkerCfg};
+
+const DEFAULT_SEED: u64 = 20260924;
+
+#[derive(Serialize, Deserialize, Clone, Debug)]
+pub struct ReplayFile {
+    pub property: String,
+    pub kind: String,
+    pub verif_seed: u64,
+    pub stratum: String,
+    pub index: u64,
+    pub signature: String,
+    pub minimised: bool,
+    pub plan: Plan,
+    pub violation: Violation,
+    #[serde(default)]
+    pub notes: Vec<String>,
+}
+
+fn tier_params(tier: &str) -> Tier {
+    match tier {
+        "thorough" => Tier {
+            harvest_gen: 40_000,
+            a: 120_000,
+            a_k: 8,
+            b: 60_000,
+            c: 60_000,
+        },
+        "smoke" => Tier {
+            harvest_gen: 300,
+            a: 200,
+            a_k: 3,
+            b: 100,
+            c: 100,
+        },
+        _ => Tier {
+            harvest_gen: 3_000,
+            a: 6_000,
+            a_k: 4,
+            b: 3_000,
+            c: 3_000,
+        },
+    }
+}
+
+fn arg_val(args: &[String], name: &str) -> Option<String> {
+    args.iter()
+        .position(|a| a == name)
+        .and_then(|p| args.get(p + 1).cloned())
+}
+
+/// What is left in a minimised plan tells which part of the context matters.
+fn classify_kind(plan: &Plan, v: &Violation) -> String {
+    if v.element == "unseamed-nondeterminism" {
+        return "unseamed_nondeterminism".into();
+    }
+    if v.element == "deadlock" || v.element == "step-cap" || v.actual.class == "noreturn" {
+        return "deadlock_or_no_return".into();
+    }
+    let ncalls: usize = plan.threads.iter().map(|t| t.len()).sum::<usize>() + plan.sentinel.len();
+    let faults = plan
+        .threads
+        .iter()
+        .flatten()
+        .chain(plan.sentinel.iter())
+        .any(|c| c.panic_at.is_some() || c.session)
+        || plan.env_before.is_some();
+    let permuted = plan.threads.iter().flatten().any(|c| match &c.op {
+        ops::Op::Project {
+            order, via_hashmap, ..
+        } => *via_hashmap || order.iter().enumerate().any(|(i, o)| i != *o),
+        _ => false,
+    });
+    if plan.shuttle {
+        "schedule_divergence".into()
+    } else if ncalls > 1 || faults {
+        "history_divergence".into()
+    } else if permuted {
+        "enumeration_divergence".into()
+    } else {
+        "seed_divergence".into()
+    }
+}
+
+fn cmd_replay(path: &str) -> i32 {
+    let text = match std::fs::read_to_string(path) {
+        Ok(t) => t,
+        Err(e) => {
+            eprintln!("cannot read {path}: {e}");
+            return 2;
+        }
+    };
+    let rf: ReplayFile = match serde_json::from_str(&text) {
+        Ok(r) => r,
+        Err(e) => {
+            eprintln!("bad replay file {path}: {e}");
+            return 2;
+        }
+    };
+    let mut refs = RefTable::default();
+    let mut plan = rf.plan.clone();
+    plan.keep_log = true;
+    let tries = if rf.kind == "unseamed_nondeterminism" { 50 } else { 1 };
+    for _ in 0..tries {
+        match check::run_and_check(&plan, &mut refs) {
+            Ok((out, res)) => {
+                if let Some(e) = res.harness_error {
+                    eprintln!("HARNESS-ERROR {e}");
+                    return 2;
+                }
+                if let Some(v) = res.violations.first() {
+                    println!("replay of {path}: property {} violated again", rf.property);
+                    println!("  kind        {}", rf.kind);
+                    println!("  at          {} thread={} call={} ({})", v.phase, v.thread as isize, v.call, v.op_kind);
+                    println!("  element     {} (first differing byte {})", v.element, v.offset);
+                    println!("  expected    [{}] {}", v.expected.class, clip(&v.expected.text, 600));
+                    println!("  actual      [{}] {}", v.actual.class, clip(&v.actual.text, 600));
+                    println!("  event-log   {} events, digest {:016x}", out.nevents, out.digest);
+                    let same = v.signature() == rf.signature && v.offset == rf.violation.offset;
+                    println!("  identical to recorded violation: {same}");
+                    println!("VIOLATION property={} replay={}", rf.property, path);
+                    return 1;
+                }
+            }
+            Err(e) => {
+                eprintln!("HARNESS-ERROR {e}");
+                return 2;
+            }
+        }
+    }
+    println!("replay of {path}: no violation (property held)");
+    0
+}
+
+fn clip(s: &str, n: usize) -> String {
+    let mut t: String = s.chars().take(n).collect();
+    if s.chars().count() > n {
+        t.push('…');
+    }
+    t.replace('\n', "\\n")
+}
+
+fn cmd_minimize(inp: &str, outp: &str, budget: usize) -> i32 {
+    let text = std::fs::read_to_string(inp).expect("read replay");
+    let mut rf: ReplayFile = serde_json::from_str(&text).expect("parse replay");
+    let mut m = minimize::Minimizer::new(&rf.violation, budget);
+    // must fail to begin with
+    let Some((v0, _)) = m.fails(&rf.plan) else {
+        eprintln!("minimize: input does not fail (with the recorded kind) when re-run");
+        return 3;
+    };
+    rf.violation = v0;
+    let small = m.minimize(&rf.plan);
+    let mut m2 = minimize::Minimizer::new(&rf.violation, 5);
+    match m2.fails(&small) {
+        Some((v, sched)) => {
+            rf.plan = small;
+            if rf.plan.shuttle && rf.plan.sched.explicit.is_none() {
+                rf.plan.sched.explicit = Some(sched);
+            }
+            rf.kind = classify_kind(&rf.plan, &v);
+            rf.signature = v.signature();
+            rf.violation = v;
+            rf.minimised = true;
+            rf.notes.push(format!("minimised with {} candidate executions", m.evals));
+        }
+        None => {
+            rf.notes.push("minimised plan did not fail again; raw plan kept".into());
+        }
+    }
+    std::fs::write(outp, serde_json::to_string_pretty(&rf).unwrap()).expect("write");
+    0
+}
+
+struct Agg {
+    evaluations: u64,
+    per_stratum: BTreeMap<String, u64>,
+    calls: u64,
+    judged: u64,
+    unjudged: u64,
+    ctx: HashSet<u64>,
+    scheds: HashSet<u64>,
+    canaries: HashSet<String>,
+    digests: HashSet<u64>,
+    faults: FaultCounts,
+    fault_execs: BTreeMap<String, u64>,
+    probes: BTreeMap<String, u64>,
+    counters: BTreeMap<String, u64>,
+    steps: u64,
+    switches: u64,
+    nevents: u64,
+    reruns: u64,
+    reruns_same: u64,
+    herrs: Vec<(String, u64, String, Option<Plan>)>,
+    viols: Vec<(String, u64, Violation, Plan)>,
+    samples: Vec<serde_json::Value>,
+    op_kinds: BTreeMap<String, u64>,
+    refs_computed: u64,
+    refs_crashed: u64,
+}
+
+impl Agg {
+    fn new() -> Self {
+        Agg {
+            evaluations: 0,
+            per_stratum: BTreeMap::new(),
+            calls: 0,
+            judged: 0,
+            unjudged: 0,
+            ctx: HashSet::new(),
+            scheds: HashSet::new(),
+            canaries: HashSet::new(),
+            digests: HashSet::new(),
+            faults: FaultCounts::default(),
+            fault_execs: BTreeMap::new(),
+            probes: BTreeMap::new(),
+            counters: BTreeMap::new(),
+            steps: 0,
+            switches: 0,
+            nevents: 0,
+            reruns: 0,
+            reruns_same: 0,
+            herrs: Vec::new(),
+            viols: Vec::new(),
+            samples: Vec::new(),
+            op_kinds: BTreeMap::new(),
+            refs_computed: 0,
+            refs_crashed: 0,
+        }
+    }
+    fn bump(m: &mut BTreeMap<String, u64>, k: &str, by: u64) {
+        *m.entry(k.to_string()).or_insert(0) += by;
+    }
+    fn add(&mut self, r: ExecReport) {
+        self.evaluations += 1;
+        Self::bump(&mut self.per_stratum, &r.stratum, 1);
+        self.refs_computed += r.refs_computed;
+        self.refs_crashed += r.refs_crashed;
+        if let Some(e) = r.herr {
+            self.herrs.push((r.stratum.clone(), r.i, e, r.plan.clone()));
+            return;
+        }
+        self.calls += r.calls;
+        self.judged += r.judged;
+        self.unjudged += r.unjudged;
+        if r.nontrivial {
+            self.ctx.insert(r.ctxkey);
+        }
+        if r.stratum == "C" {
+            self.scheds.insert(r.schedkey);
+        }
+        self.canaries.insert(r.canary.clone());
+        self.digests.insert(r.digest);
+        self.faults.add(&r.faults);
+        let f = &r.faults;
+        for (k, v) in [
+            ("hash_reseed", f.hash_reseed),
+            ("enum_permute", f.enum_permute),
+            ("preempt", f.preempt),
+            ("stall", f.stall),
+            ("panic_real", f.panic_real),
+            ("panic_injected", f.panic_injected_fired),
+            ("failed_call", f.failed_call),
+            ("env_change", f.env_change),
+            ("debug_session", f.debug_session),
+        ] {
+            if v > 0 {
+                Self::bump(&mut self.fault_execs, k, 1);
+            }
+        }
+        let c = &r.counters;
+        for (k, v) in [
+            ("calls_overlapped", c.calls_overlapped),
+            ("std_init_contended", c.std_init_contended),
+            ("once_init_contended", c.once_contended),
+            ("current_log_contended", c.rw_contended),
+            ("panic_while_other_call_in_flight", c.panics_while_other_in_flight),
+            ("debug_session_records_forwarded", c.session_records),
+        ] {
+            if v > 0 {
+                Self::bump(&mut self.probes, k, 1);
+            }
+        }
+        if r.sentinel_after_panic {
+            Self::bump(&mut self.probes, "sentinel_ran_after_panic", 1);
+        }
+        for (k, v) in [
+            ("hook_events", c.hook_events),
+            ("rw_acquires", c.rw_acquires),
+            ("once_inits", c.once_inits),
+            ("log_records", c.log_records),
+            ("log_yields", c.log_yields),
+        ] {
+            Self::bump(&mut self.counters, k, v);
+        }
+        for k in &r.op_kinds {
+            Self::bump(&mut self.op_kinds, k, 1);
+        }
+        self.steps += r.steps;
+        self.switches += r.switches;
+        self.nevents += r.nevents;
+        if let Some(s) = r.rerun_same {
+            self.reruns += 1;
+            if s {
+                self.reruns_same += 1;
+            }
+        }
+        if let Some(s) = r.sample {
+            if self.samples.len() < 6 {
+                self.samples.push(serde_json::json!({"stratum": r.stratum, "index": r.i, "execution": s}));
+            }
+        }
+        if let Some(p) = r.plan {
+            for v in r.viol {
+                self.viols.push((r.stratum.clone(), r.i, v, p.clone()));
+            }
+        }
+    }
+}
+
+fn spawn_workers(
+    exe: &std::path::Path,
+    phase: &str,
+    seed: u64,
+    tier: &Tier,
+    nw: u64,
+    panickers: Option<&str>,
+    mut on_line: impl FnMut(&str),
+) -> Result<(), String> {
+    let (tx, rx) = std::sync::mpsc::channel::<Option<String>>();
+    let mut children = Vec::new();
+    for w in 0..nw {
+        let mut c = Command::new(exe);
+        c.arg("worker")
+            .arg("--phase")
+            .arg(phase)
+            .arg("--seed")
+            .arg(seed.to_string())
+            .arg("--tier-json")
+            .arg(serde_json::to_string(tier).unwrap())
+            .arg("--w")
+            .arg(w.to_string())
+            .arg("--nw")
+            .arg(nw.to_string());
+        if let Some(p) = panickers {
+            c.arg("--panickers").arg(p);
+        }
+        c.stdout(Stdio::piped()).stdin(Stdio::null());
+        let mut ch = c.spawn().map_err(|e| format!("spawn worker: {e}"))?;
+        let out = ch.stdout.take().unwrap();
+        let tx = tx.clone();
+        std::thread::spawn(move || {
+            let rd = BufReader::with_capacity(1 << 20, out);
+            for l in rd.lines().map_while(Result::ok) {
+                if tx.send(Some(l)).is_err() {
+                    break;
+                }
+            }
+            let _ = tx.send(None);
+        });
+        children.push(ch);
+    }
+    drop(tx);
+    let mut done = 0;
+    while done < nw {
+        match rx.recv() {
+            Ok(Some(l)) => on_line(&l),
+            Ok(None) => done += 1,
+            Err(_) => break,
+        }
+    }
+    for mut ch in children {
+        let st = ch.wait().map_err(|e| format!("wait worker: {e}"))?;
+        if !st.success() {
+            return Err(format!("worker exited with {st}"));
+        }
+    }
+    Ok(())
+}
+
+fn load_known() -> (Vec<String>, Vec<String>) {
+    let path = std::env::var("VERIF_KNOWN").unwrap_or_else(|_| "/verif/known-findings.txt".into());
+    let mut known = Vec::new();
+    let mut fixed = Vec::new();
+    if let Ok(t) = std::fs::read_to_string(path) {
+        for l in t.lines() {
+            let l = l.trim();
+            if let Some(r) = l.strip_prefix("known:") {
+                known.push(r.trim().to_string());
+            } else if let Some(r) = l.strip_prefix("fixed:") {
+                fixed.push(r.trim().to_string());
+            }
+        }
+    }
+    (known, fixed)
+}
+
+fn cmd_run(args: &[String]) -> i32 {
+    let t0 = std::time::Instant::now();
+    let tier_name = arg_val(args, "--tier")
+        .or_else(|| std::env::var("VERIF_TIER").ok())
+        .unwrap_or_else(|| "quick".into());
+    let seed: u64 = arg_val(args, "--seed")
+        .or_else(|| std::env::var("VERIF_SEED").ok())
+        .and_then(|s| s.trim().parse().ok())
+        .unwrap_or(DEFAULT_SEED);
+    let nw: u64 = arg_val(args, "--workers")
+        .and_then(|s| s.parse().ok())
+        .unwrap_or_else(|| std::thread::available_parallelism().map(|n| n.get() as u64).unwrap_or(8).min(16));
+    let evidence_path = arg_val(args, "--evidence").unwrap_or_else(|| "/verif/evidence/C11.json".into());
+    let replay_dir = arg_val(args, "--replays").unwrap_or_else(|| "/verif/replays".into());
+    let tier = tier_params(&tier_name);
+    println!("seed {seed} tier {tier_name} workers {nw}");
+    let exe = std::env::current_exe().expect("current_exe");
+    let corpus = match worker::load_corpus() {
+        Ok(c) => c,
+        Err(e) => {
+            eprintln!("HARNESS-ERROR {e}");
+            return 2;
+        }
+    };
+    let rundir = format!("/verif/sim/target/runs/{}", std::process::id());
+    let _ = std::fs::create_dir_all(&rundir);
+
+    // ---- phase H: harvest inputs that really panic on this tree
+    let mut harvested: Vec<HarvestReport> = Vec::new();
+    if let Err(e) = spawn_workers(&exe, "H", seed, &tier, nw, None, |l| {
+        if let Ok(h) = serde_json::from_str::<HarvestReport>(l) {
+            harvested.push(h);
+        }
+    }) {
+        eprintln!("HARNESS-ERROR {e}");
+        return 2;
+    }
+    harvested.sort_by_key(|h| h.h);
+    let harvested_total = harvested.len();
+    let panickers: Vec<String> = harvested.iter().take(64).map(|h| h.src.clone()).collect();
+    let ppath = format!("{rundir}/panickers.json");
+    std::fs::write(&ppath, serde_json::to_string(&panickers).unwrap()).expect("write panickers");
+    println!(
+        "phase H: {} programs examined, {} panic in the reference context, {} used as panic_real faults ({:.1}s)",
+        corpus.programs.len() as u64 + tier.harvest_gen,
+        harvested_total,
+        panickers.len(),
+        t0.elapsed().as_secs_f64()
+    );
+
+    // ---- phases A, B, C
+    let mut agg = Agg::new();
+    let mut bad_lines = 0u64;
+    if let Err(e) = spawn_workers(&exe, "X", seed, &tier, nw, Some(&ppath), |l| {
+        match serde_json::from_str::<ExecReport>(l) {
+            Ok(r) => agg.add(r),
+            Err(_) => bad_lines += 1,
+        }
+    }) {
+        eprintln!("HARNESS-ERROR {e}");
+        return 2;
+    }
+    let _ = std::fs::remove_dir_all(&rundir);
+    let expected = tier.a + tier.b + tier.c;
+    let wall = t0.elapsed().as_secs_f64();
+    println!(
+        "executions {} (A {} B {} C {}), calls {}, judged {}, unjudged {}, refs computed {}, wall {:.1}s",
+        agg.evaluations,
+        agg.per_stratum.get("A").copied().unwrap_or(0),
+        agg.per_stratum.get("B").copied().unwrap_or(0),
+        agg.per_stratum.get("C").copied().unwrap_or(0),
+        agg.calls,
+        agg.judged,
+        agg.unjudged,
+        agg.refs_computed,
+        wall
+    );
+    if bad_lines > 0 || agg.evaluations != expected {
+        eprintln!(
+            "HARNESS-ERROR expected {expected} execution reports, got {} ({bad_lines} unparsable lines)",
+            agg.evaluations
+        );
+        return 2;
+    }
+    if !agg.herrs.is_empty() {
+        agg.herrs.sort_by(|a, b| (a.0.clone(), a.1).cmp(&(b.0.clone(), b.1)));
+        for (s, i, e, p) in agg.herrs.iter().take(5) {
+            eprintln!("HARNESS-ERROR stratum {s} execution {i}: {e}");
+            if let Some(p) = p {
+                let path = format!("{replay_dir}/C11-harness-error-{seed}-{s}{i}.json");
+                let _ = std::fs::create_dir_all(&replay_dir);
+                let _ = std::fs::write(&path, serde_json::to_string_pretty(p).unwrap());
+                eprintln!("  plan written to {path}");
+            }
+        }
+        return 2;
+    }
+
+    // ---- violations: cluster, minimise, replay, report
+    let (known, _fixed) = load_known();
+    agg.viols.sort_by(|a, b| (a.0.clone(), a.1).cmp(&(b.0.clone(), b.1)));
+    let mut clusters: Vec<(String, Vec<usize>)> = Vec::new();
+    for (idx, (_, _, v, _)) in agg.viols.iter().enumerate() {
+        let sig = v.signature();
+        match clusters.iter_mut().find(|(s, _)| *s == sig) {
+            Some((_, m)) => m.push(idx),
+            None => clusters.push((sig, vec![idx])),
+        }
+    }
+    let mut reported = 0u64;
+    let mut known_hits: BTreeMap<String, u64> = BTreeMap::new();
+    let mut violation_lines = Vec::new();
+    let _ = std::fs::create_dir_all(&replay_dir);
+    for (cluster_no, (sig, members)) in clusters.iter().enumerate() {
+        // known finding? (exact signature listed in known-findings.txt)
+        if let Some(k) = known.iter().find(|k| k.contains(&format!("sig={sig} "))) {
+            *known_hits.entry(k.clone()).or_insert(0) += members.len() as u64;
+            continue;
+        }
+        if reported >= 8 {
+            println!("further cluster {sig}: {} executions (not minimised)", members.len());
+            reported += 1;
+            continue;
+        }
+        let (stratum, i, v, plan) = &agg.viols[members[0]];
+        let raw_path = format!("{replay_dir}/C11-{seed}-{stratum}{i}-c{cluster_no}.raw.json");
+        let min_path = format!("{replay_dir}/C11-{seed}-{stratum}{i}-c{cluster_no}.json");
+        let rf = ReplayFile {
+            property: "C11".into(),
+            kind: classify_kind(plan, v),
+            verif_seed: seed,
+            stratum: stratum.clone(),
+            index: *i,
+            signature: sig.clone(),
+            minimised: false,
+            plan: plan.clone(),
+            violation: v.clone(),
+            notes: vec![format!("cluster of {} executions with this signature", members.len())],
+        };
+        std::fs::write(&raw_path, serde_json::to_string_pretty(&rf).unwrap()).expect("write replay");
+        let st = Command::new(&exe)
+            .arg("minimize")
+            .arg(&raw_path)
+            .arg(&min_path)
+            .status();
+        let mut final_path = None;
+        if matches!(st, Ok(s) if s.success()) {
+            let out = Command::new(&exe).arg("replay").arg(&min_path).output();
+            if matches!(&out, Ok(o) if o.status.code() == Some(1)) {
+                final_path = Some(min_path.clone());
+                let _ = std::fs::remove_file(&raw_path);
+            }
+        }
+        if final_path.is_none() {
+            let out = Command::new(&exe).arg("replay").arg(&raw_path).output();
+            if matches!(&out, Ok(o) if o.status.code() == Some(1)) {
+                final_path = Some(raw_path.clone());
+            }
+        }
+        match final_path {
+            Some(p) => {
+                let rf2: Option<ReplayFile> = std::fs::read_to_string(&p).ok().and_then(|t| serde_json::from_str(&t).ok());
+                if let Some(r) = rf2 {
+                    println!(
+                        "violation cluster {sig}: {} executions; first: stratum {stratum} execution {i}; kind {}; minimised={}",
+                        members.len(),
+                        r.kind,
+                        r.minimised
+                    );
+                    println!("  expected [{}] {}", r.violation.expected.class, clip(&r.violation.expected.text, 300));
+                    println!("  actual   [{}] {}", r.violation.actual.class, clip(&r.violation.actual.text, 300));
+                }
+                violation_lines.push(format!("VIOLATION property=C11 replay={p}"));
+                reported += 1;
+            }
+            None => {
+                eprintln!(
+                    "HARNESS-ERROR violation {sig} (stratum {stratum} execution {i}) did not reproduce from its replay file {raw_path}"
+                );
+                return 2;
+            }
+        }
+    }
+    for (k, n) in &known_hits {
+        println!("KNOWN-FINDING: property=C11 {k} ({n} executions)");
+    }
+
+    // ---- evidence
+    let distinct = agg.ctx.len() as u64;
+    let ev = serde_json::json!({
+        "property_id": "C11",
+        "tier": if tier_name == "thorough" { "thorough" } else { "quick" },
+        "seed": seed,
+        "level": "exploration",
+        "wall_s": (wall * 10.0).round() / 10.0,
+        "violations": violation_lines.len(),
+        "coverage": {
+            "evaluations": agg.evaluations,
+            "distinct_nontrivial": distinct,
+            "rule": "one evaluation = one simulated execution (a Plan run in a pristine forked process). Plans are a pure function of (VERIF_SEED, stratum, index): stratum A = one operation under 1+K hash bases / file enumeration orders; B = sequential call histories over 1-3 caller threads with faults and a sentinel phase; C = 2-4 concurrent callers as shuttle tasks under the simulator's seeded scheduler with faults and a sentinel phase. Non-trivial = at least two calls, or any fault fired (non-reference hash base, permuted enumeration, context switch, real or injected panic, failed call, env change, debug session). Distinct = distinct FNV-64 of (calls incl. program texts and options, sentinel, hash base, env, schedule actually taken).",
+            "samples": agg.samples,
+            "executions_per_stratum": agg.per_stratum,
+            "api_calls_executed": agg.calls,
+            "calls_judged_against_reference": agg.judged,
+            "calls_unjudged_reference_context_crashes": agg.unjudged,
+            "reference_contexts_computed": agg.refs_computed,
+            "executions_per_hour": ((agg.evaluations as f64) / wall * 3600.0).round(),
+            "seeds_per_hour": "one VERIF_SEED per run; every execution has its own derived seed, so seeds per hour = executions_per_hour",
+            "simulated_time": "none: the library has no clock, timer or deadline (DESIGN.md §1); progress is measured in scheduler steps",
+            "scheduler_steps": agg.steps,
+            "context_switches": agg.switches,
+            "event_log_events": agg.nevents,
+            "faults_fired": agg.faults,
+            "executions_with_fault_kind": agg.fault_execs,
+            "reach_probes_executions": agg.probes,
+            "seam_event_counts": agg.counters,
+            "distinct_interleavings_stratum_C": agg.scheds.len(),
+            "distinct_hash_key_states": agg.canaries.len(),
+            "distinct_event_log_digests": agg.digests.len(),
+            "operation_kinds_executions": agg.op_kinds,
+            "panicking_inputs_harvested": harvested_total,
+            "determinism_reruns": agg.reruns,
+            "determinism_reruns_identical": agg.reruns_same,
+            "violation_clusters": clusters.iter().map(|(s, m)| serde_json::json!({"signature": s, "executions": m.len()})).collect::<Vec<_>>(),
+            "known_findings_hit": known_hits,
+            "components_real": ["prqlc", "prqlc-parser", "chumsky", "sqlparser", "sqlformat", "ariadne", "regex", "serde_json", "csv", "chrono", "std RwLock/OnceLock (uncontended, under shadow locks)", "prqlc::debug::MessageLogger (during debug sessions)"],
+            "components_stubbed": ["getrandom (PRNG; decides std RandomState keys)", "log global logger (harness logger: preemption points, injected panics)", "thread scheduling (shuttle 0.9.3 tasks under the simulator's own seeded Scheduler)", "anstream colour choice pinned to Never"],
+        },
+        "assumptions": [
+            "reference context = same build, pristine process, one thread, hash base 0, identity file order, no fault; a deterministic-but-wrong output is invisible here",
+            "interleavings are explored at the hooked synchronisation points (CURRENT_LOG, 8 lazily initialised statics) and at log sites, not between arbitrary instructions",
+            "getrandom interposition decides std RandomState keys (verified per execution by the canary map order in the event log)",
+            "PL is compared as canonical JSON; source ids are compared through SourceTree::get_path; panic messages and debug-log contents are not compared",
+        ],
+    });
+    if let Some(dir) = std::path::Path::new(&evidence_path).parent() {
+        let _ = std::fs::create_dir_all(dir);
+    }
+    if let Err(e) = std::fs::write(&evidence_path, serde_json::to_string_pretty(&ev).unwrap()) {
+        eprintln!("HARNESS-ERROR cannot write evidence: {e}");
+        return 2;
+    }
+    println!(
+        "distinct non-trivial contexts {distinct}, distinct interleavings {}, fault executions {:?}",
+        agg.scheds.len(),
+        agg.fault_execs
+    );
+    println!("reach probes {:?}", agg.probes);
+    println!(
+        "determinism re-executions {} identical {}",
+        agg.reruns, agg.reruns_same
+    );
+    if violation_lines.is_empty() {
+        println!("C11 held on everything explored");
+        0
+    } else {
+        for l in &violation_lines {
+            println!("{l}");
+        }
+        1
+    }
+}
+
+fn cmd_worker(args: &[String]) -> i32 {
+    let phase = arg_val(args, "--phase").unwrap_or_default();
+    let seed: u64 = arg_val(args, "--seed").and_then(|s| s.parse().ok()).unwrap_or(DEFAULT_SEED);
+    let tier: Tier = serde_json::from_str(&arg_val(args, "--tier-json").unwrap_or_default()).expect("tier json");
+    let w: u64 = arg_val(args, "--w").and_then(|s| s.parse().ok()).unwrap_or(0);
+    let nw: u64 = arg_val(args, "--nw").and_then(|s| s.parse().ok()).unwrap_or(1);
+    let corpus = match worker::load_corpus() {
+        Ok(c) => c,
+        Err(e) => {
+            eprintln!("worker: {e}");
+            return 2;
+        }
+    };
+    let gen = gen::Gen {
+        corpus: &corpus,
+        verif_seed: seed,
+    };
+    seams::install();
+    if phase == "H" {
+        worker::harvest(&gen, &tier, w, nw);
+        return 0;
+    }
+    let panickers: Vec<String> = arg_val(args, "--panickers")
+        .and_then(|p| std::fs::read_to_string(p).ok())
+        .and_then(|t| serde_json::from_str(&t).ok())
+        .unwrap_or_default();
+    let cfg = WorkerCfg {
+        verif_seed: seed,
+        tier,
+        w,
+        nw,
+        panickers,
+        samples_per_stratum: 2,
+    };
+    worker::work(&gen, &cfg);
+    0
+}
+
+/// Determinism self-check: every plan twice, in different worker layouts.
+fn cmd_selfcheck(args: &[String]) -> i32 {
+    let n: u64 = arg_val(args, "--n").and_then(|s| s.parse().ok()).unwrap_or(300);
+    let seeds: u64 = arg_val(args, "--seeds").and_then(|s| s.parse().ok()).unwrap_or(8);
+    let exe = std::env::current_exe().unwrap();
+    let tier = Tier {
+        harvest_gen: 0,
+        a: n,
+        a_k: 2,
+        b: n,
+        c: n,
+    };
+    let mut total = 0u64;
+    let mut mismatches = 0u64;
+    for s in 0..seeds {
+        let seed = DEFAULT_SEED + 1000 + s;
+        let mut runs: Vec<HashMap<(String, u64), (u64, String)>> = Vec::new();
+        for nw in [1u64, 4, 16] {
+            // with n plans per stratum at one worker this is slow; scale n down for nw = 1
+            let mut m = HashMap::new();
+            let r = spawn_workers(&exe, "X", seed, &tier, nw, None, |l| {
+                if let Ok(r) = serde_json::from_str::<ExecReport>(l) {
+                    m.insert((r.stratum.clone(), r.i), (r.digest, format!("{:?}", r.herr)));
+                }
+            });
+            if let Err(e) = r {
+                eprintln!("HARNESS-ERROR {e}");
+                return 2;
+            }
+            runs.push(m);
+        }
+        for (k, v) in &runs[0] {
+            total += 1;
+            for other in &runs[1..] {
+                if other.get(k) != Some(v) {
+                    mismatches += 1;
+                    eprintln!("MISMATCH seed {seed} {:?}: {:?} vs {:?}", k, v, other.get(k));
+                }
+            }
+        }
+        println!("seed {seed}: {} executions compared across worker counts 1/4/16", runs[0].len());
+    }
+    println!("selfcheck determinism: {total} executions x 3 layouts, {mismatches} mismatches");
+    if mismatches == 0 {
+        0
+    } else {
+        2
+    }
+}
+
+/// Triage helper: one operation under several hash bases, each in a pristine child.
+fn cmd_probe(args: &[String]) -> i32 {
+    seams::install();
+    let kind = args.get(2).cloned().unwrap_or_default();
+    let src = args.get(3).cloned().unwrap_or_default();
+    let src = if let Some(f) = src.strip_prefix('@') {
+        std::fs::read_to_string(f).expect("read src")
+    } else {
+        src
+    };
+    let n: u64 = arg_val(args, "--bases").and_then(|s| s.parse().ok()).unwrap_or(8);
+    let target = arg_val(args, "--target").unwrap_or_else(|| "sql.any".into());
+    let op = match kind.as_str() {
+        "fmt" => ops::Op::Fmt { src },
+        "rq" => ops::Op::Rq { src },
+        "staged" => ops::Op::Staged {
+            src,
+            opts: ops::Opts::plain(&target),
+        },
+        _ => ops::Op::Compile {
+            src,
+            opts: ops::Opts::plain(&target),
+        },
+    };
+    let mut seen: Vec<(String, Vec<u64>)> = Vec::new();
+    for b in 0..n {
+        let mut p = check::ref_plan(&op, &None);
+        p.threads[0][0].hash_base = Some(b);
+        match forkrun::run_forked(&p, 60_000) {
+            Ok(o) => {
+                let obs = &o.calls[0][0].obs;
+                let t = format!("[{}] {}", obs.class, obs.text);
+                match seen.iter_mut().find(|(x, _)| *x == t) {
+                    Some((_, v)) => v.push(b),
+                    None => seen.push((t, vec![b])),
+                }
+            }
+            Err(e) => println!("base {b}: child failed {e:?}"),
+        }
+    }
+    for (t, bases) in &seen {
+        println!("bases {bases:?}:\n{t}\n");
+    }
+    println!("{} distinct outputs over {n} hash bases", seen.len());
+    0
+}
+
+fn main() {
+    let args: Vec<String> = std::env::args().collect();
+    let code = match args.get(1).map(|s| s.as_str()) {
+        Some("run") => cmd_run(&args),
+        Some("worker") => cmd_worker(&args),
+        Some("replay") => match args.get(2) {
+            Some(p) => {
+                seams::install();
+                cmd_replay(p)
+            }
+            None => 2,
+        },
+        Some("minimize") => match (args.get(2), args.get(3)) {
+            (Some(a), Some(b)) => {
+                seams::install();
+                let budget = arg_val(&args, "--budget").and_then(|s| s.parse().ok()).unwrap_or(600);
+                cmd_minimize(a, b, budget)
+            }
+            _ => 2,
+        },
+        Some("selfcheck") => cmd_selfcheck(&args),
+        Some("probe") => cmd_probe(&args),
+        _ => {
+            eprintln!("usage: sim run [--tier quick|thorough] [--seed N] | replay <file> | minimize <in> <out> | selfcheck");
+            2
+        }
+    };
+    std::process::exit(code);
+}
